@@ -101,6 +101,9 @@ def check_case(spec: dict) -> dict:
                 v("sub-scan-modules", f"module_path={sub}: modules {sorted(part[1][0])} != restriction {sorted(wm)}")
             if PS.drop_ancestor_imports(part[1][1]) != wi:
                 v("sub-scan-imports", f"module_path={sub}: imports {sorted(part[1][1])} != restriction {sorted(wi)}")
+            want_hp = {(".".join(m.split(".")[:-1]), m) for m in wm if "." in m}
+            if set(part[1][2]) != want_hp:
+                v("sub-scan-hierarchy", f"module_path={sub}: hierarchy edges missing={sorted(want_hp - set(part[1][2]))} extra={sorted(set(part[1][2]) - want_hp)}")
             if alt is not None:
                 if alt[0] != "ok":
                     v("relative-rendering-error", alt[1])
@@ -171,8 +174,25 @@ def exh_shard(arg, stt, deadline) -> None:
                 stt.record(spec, check_case(spec), enumerated=True, sample=(i % 29 == 3))
 
 
+def chain_shard(arg, stt, deadline) -> None:
+    """Chains d1/d2/.../dn with nothing, one file or an __init__ at the bottom; module_path at every level."""
+    (depth,) = arg
+    names = ["a", "ab", "a", "b"][:depth]
+    dirs = ["/".join(names[: i + 1]) for i in range(depth)]
+    for bottom in ([], ["m.py"], ["__init__.py"], ["m.py", "ab.py"]):
+        for top in ([], ["main.py"]):
+            py = sorted([dirs[-1] + "/" + f for f in bottom] + top)
+            for mp in [""] + dirs:
+                spec = {"root": "proj", "dirs": dirs, "pyfiles": py, "otherfiles": [], "module_path": mp, "imports": []}
+                if "main.py" in py and bottom and bottom[0] != "__init__.py":
+                    spec["imports"] = [["main.py", PS.dotted("proj", dirs[-1] + "/" + bottom[0])]]
+                stt.record(spec, check_case(spec), enumerated=True, sample=(mp == dirs[-1] and not top))
+
+
 def run(ctx) -> None:
     nsh = 16
+    ctx.exhaustive("directory-chains", MOD, "chain_shard", [(d,) for d in (1, 2, 3, 4)],
+                   "directory chains of depth 1-4 with 4 bottom contents x with/without a top-level file x module_path at every level")
     ctx.exhaustive("small-tree-family", MOD, "exh_shard", [(i, nsh) for i in range(nsh)],
                    "top-level entries a and ab each in 7 shapes (absent, file, directory with/without __init__ and children a/ab) x module_path in {root, a, ab}")
     ctx.random("random-trees", MOD, "strategy", "check_case", 1500 if ctx.tier == "quick" else 40000)
